@@ -222,6 +222,9 @@ def _eval_hp(model, case):
 
 
 def gen_hp_cases(tier, seed):
+    import os
+    if os.environ.get("VERIF_NO_HP"):        # timing comparisons only
+        return []
     rng = random.Random(1000003 * seed + 4004)
     quick = tier == "quick"
     lcap = 4 if quick else 6
